@@ -60,7 +60,7 @@ pub struct Stats {
     pub exhaustive_cases: u64,
 }
 
-pub const MAX_FOUND: usize = 12;
+pub const MAX_FOUND: usize = 40;
 pub const MAX_SAMPLES: usize = 6;
 pub const DISTINCT_CAP: usize = 4_000_000;
 
